@@ -8,6 +8,8 @@
 //!        C <n> { <nb> { <m> { <kind 0=get_host_by_name|1=connect_by_name> <record index | k+j = unregistered name j> } } }
 //!                                                      client c runs its batches one after the other, the m lookups of a
 //!                                                      batch concurrently
+//!        (one case in five: 2..4 almost equal names - ASCII case, trailing dots, prefixes, one non-ASCII byte - with
+//!        different addresses, resolved by the same client one after the other and concurrently, then again from the cache)
 //!        D <pct> <max_us> <seed>`                      frame i is delayed by h(seed,i) % (max_us+1) us with probability pct%
 //! impl line: events in log order separated by ` ; `:
 //!   `N <conn>`                       the argument given to DnsServer::new
@@ -700,10 +702,128 @@ fn rng_len(len: usize) -> usize {
     len.max(3)
 }
 
+/// two different names that a sloppy cache key could identify
+fn near_equal(a: &[u8], b: &[u8]) -> bool {
+    if a == b {
+        return false;
+    }
+    let trim = |x: &[u8]| {
+        let mut e = x.len();
+        while e > 0 && x[e - 1] == b'.' {
+            e -= 1;
+        }
+        x[..e].to_vec()
+    };
+    a.eq_ignore_ascii_case(b)
+        || trim(a) == trim(b)
+        || a.starts_with(b)
+        || b.starts_with(a)
+        || (a.len() == b.len() && a.iter().zip(b.iter()).filter(|(x, y)| x != y).count() == 1)
+}
+
+/// Record sets of almost equal names with different addresses; clients resolve several of them one after
+/// the other (the second lookup must not be answered from the first one's cache entry) and concurrently.
+fn gen_near(rng: &mut Rng, flavor: usize) -> String {
+    let len = rng.range(4, 15) as usize;
+    let mut base = gen_name(rng, len, 0);
+    base[0] = b'a' + rng.below(26) as u8;
+    let upper: Vec<u8> = base.to_ascii_uppercase();
+    let mut cap = base.clone();
+    cap[0] = cap[0].to_ascii_uppercase();
+    let mut mid = base.clone();
+    let at = rng.below(len as u64) as usize;
+    mid[at] = mid[at].to_ascii_uppercase();
+    let dot = |v: &Vec<u8>| {
+        let mut w = v.clone();
+        w.push(b'.');
+        w
+    };
+    let cut = rng.range(1, len as u64 - 2) as usize;
+    let utf = |last: u8| {
+        let mut w = base[..cut].to_vec();
+        w.extend_from_slice(&[0xc3, last]); // U+00E8 / U+00E9 / U+00EA: one byte apart
+        w.extend_from_slice(&base[cut..]);
+        w
+    };
+    let mut names: Vec<Vec<u8>> = match rng.below(6) {
+        0 => vec![base.clone(), cap, upper],
+        1 => vec![base.clone(), mid, upper],
+        2 => vec![base.clone(), dot(&base), dot(&dot(&base))],
+        3 => vec![base[..cut].to_vec(), base[..cut + 1].to_vec(), base.clone()],
+        4 => vec![utf(0xa9), utf(0xa8), utf(0xaa)],
+        _ => vec![base.clone(), upper, dot(&base), base[..cut].to_vec()],
+    };
+    if names.len() == 3 && rng.coin(1, 3) {
+        names.remove(rng.below(3) as usize);
+    }
+    names.sort();
+    names.dedup();
+    // a random order of registration
+    for i in (1..names.len()).rev() {
+        names.swap(i, rng.below(i as u64 + 1) as usize);
+    }
+    let k = names.len();
+    let a0 = rng.u32() & 0xffff_ff00;
+    let mut s = format!("F {} X {} R {}", flavor, if flavor != 0 || rng.coin(1, 2) { -1 } else { 1 + rng.below(2) as i64 }, k);
+    for (j, nm) in names.iter().enumerate() {
+        // different addresses, also when compared byte by byte
+        s.push_str(&format!(" {} {}", hex(nm), a0 + 1 + 37 * j as u32));
+    }
+    let n = rng.range(1, 3) as usize;
+    s.push_str(&format!(" C {}", n));
+    for _ in 0..n {
+        let mut order: Vec<usize> = (0..k).collect();
+        for i in (1..k).rev() {
+            order.swap(i, rng.below(i as u64 + 1) as usize);
+        }
+        let kind = |rng: &mut Rng| if flavor == 0 && rng.coin(1, 8) { 1 } else { 0 };
+        let mut batches: Vec<Vec<usize>> = match rng.below(3) {
+            // one after the other
+            0 => order.iter().map(|r| vec![*r]).collect(),
+            // all at once
+            1 => vec![order.clone()],
+            // the first two at once, the others one after the other
+            _ => {
+                let mut b = vec![order[..2.min(k)].to_vec()];
+                b.extend(order[2.min(k)..].iter().map(|r| vec![*r]));
+                b
+            }
+        };
+        // and again, now from the cache: each name must still give its own address
+        if rng.coin(1, 2) {
+            let mut again = order.clone();
+            again.reverse();
+            if rng.coin(1, 2) {
+                batches.push(again);
+            } else {
+                batches.extend(again.iter().map(|r| vec![*r]));
+            }
+        }
+        s.push_str(&format!(" {}", batches.len()));
+        for b in batches {
+            s.push_str(&format!(" {}", b.len()));
+            for r in b {
+                s.push_str(&format!(" {} {}", kind(rng), r));
+            }
+        }
+    }
+    let (dpct, dmax) = match rng.below(3) {
+        0 => (0, 0),
+        1 => (50, if flavor == 0 { 5000 } else { 800 }),
+        _ => (100, if flavor == 0 { 50 } else { 300 }),
+    };
+    s.push_str(&format!(" D {} {} {}", dpct, dmax, rng.below(1 << 30)));
+    s
+}
+
 struct C20;
 impl Family for C20 {
     fn gen(rng: &mut Rng, idx: usize) -> String {
         let flavor = if idx % 10 == 9 { *rng.pick(&[1usize, 2, 4]) } else { 0 };
+        // one scenario in five: almost equal names (19 of 20 of them on the paused runtime)
+        if idx % 5 == 2 {
+            return gen_near(rng, if idx % 100 == 57 { 2 } else { 0 });
+        }
         let n = rng.range(1, 4) as usize;
         let k = rng.range(1, 4) as usize;
         // streams: 0 = inside the property's quantifier; hostile: 1 = a name without record is looked up,
@@ -839,6 +959,9 @@ impl Family for C20 {
             if !n.is_ascii() {
                 stat("name-non-ascii");
             }
+        }
+        if cfg.records.iter().any(|(a, _)| cfg.records.iter().any(|(b, _)| near_equal(a, b))) {
+            stat("near-equal-names");
         }
         let hits = cfg.total_lookups() - cfg.predicted_misses().min(cfg.total_lookups());
         stat(if hits > 0 { "has-cached-lookups" } else { "no-cached-lookups" });
